@@ -38,7 +38,10 @@ def clock_encoder_form(V: Any) -> Optional[str]:
     today = time.strftime(DATEFMT) (current LOCAL date, same directives on both sides); else what is wrong."""
     shape = isinstance(V, tuple) and V[:2] == ("app", "int") and isinstance(V[2], tuple) and V[2][:2] == ("app", "time.mktime") and isinstance(V[2][2], tuple) and V[2][2][:2] == ("app", "time.strptime")
     if not shape:
-        return f"the encoded integer is {T.show(V)[:200]}; expected int(time.mktime(time.strptime(<today's local date> + ' HH:MM', <same date directives> + ' %H:%M')))"
+        mk = isinstance(V, tuple) and V[:2] == ("app", "int") and isinstance(V[2], tuple) and V[2][:2] == ("app", "time.mktime")
+        # int(time.mktime(<some other way to build today's local time tuple>)) is another form of the same skeleton: not
+        # compared here (exit 2), whereas anything that is not mktime at all (timegm, a datetime timestamp, ...) deviates
+        return (("FOREIGN: " if mk else "") + f"the encoded integer is {T.show(V)[:200]}; expected int(time.mktime(time.strptime(<today's local date> + ' HH:MM', <same date directives> + ' %H:%M')))")
     text, fmt = V[2][2][2], V[2][2][3]
     if not (T.is_c(fmt) and isinstance(fmt[1], str) and T.is_seq(text)):
         return "text/format of the parse are not understood"
@@ -121,7 +124,10 @@ def run(prog: Program, rep: Report, tier: str) -> None:
         enc_apps = apps_in(V)
         shape = isinstance(V, tuple) and V[:2] == ("app", "int") and isinstance(V[2], tuple) and V[2][:2] == ("app", "time.mktime") and isinstance(V[2][2], tuple) and V[2][2][:2] == ("app", "time.strptime")
         if not shape:
-            rep.bad("R11.1", "mktime(strptime(..))", wheree, f"encoded integer is {T.show(V)[:300]}; expected int(time.mktime(time.strptime(text, format)))", key="R11.1|shape")
+            if isinstance(V, tuple) and V[:2] == ("app", "int") and isinstance(V[2], tuple) and V[2][:2] == ("app", "time.mktime"):
+                rep.undecided("R11.1", "mktime(strptime(..))", wheree, f"encoded integer is {T.show(V)[:300]}: int(time.mktime(..)) of a time tuple built another way than strptime(text, format) - a form this rule does not compare")
+            else:
+                rep.bad("R11.1", "mktime(strptime(..))", wheree, f"encoded integer is {T.show(V)[:300]}; expected int(time.mktime(time.strptime(text, format)))", key="R11.1|shape")
             continue
         text, fmt = V[2][2][2], V[2][2][3]
         okfmt = T.is_c(fmt) and isinstance(fmt[1], str)
@@ -188,7 +194,10 @@ def run(prog: Program, rep: Report, tier: str) -> None:
     rep.check(not utc, "R11.3", "no UTC-domain API", wheree, f"{utc} (UTC domain) feed the local-time encoder/decoder: times shift by the zone offset wherever the host is not UTC", key="R11.3|utc")
     rep.check("time.mktime" in enc_apps and "time.localtime" in dec_apps, "R11.3", "inverse pair mktime/localtime", wheree,
               f"encoder uses {sorted(enc_apps & (LOCAL_APIS | UTC_APIS))}, decoder uses {sorted(dec_apps & (LOCAL_APIS | UTC_APIS))}; they must be time.mktime and time.localtime", key="R11.3|pair")
-    rep.check(enc_fmt_time == "%H:%M", "R11.3", "same minute format", wheree, f"encoder parses the clock with {enc_fmt_time!r}, decoder prints '%H:%M'", key="R11.3|format")
+    if enc_fmt_time is None:
+        rep.undecided("R11.3", "same minute format", wheree, "the directives the encoder parses the clock text with were not established (another encoder form)")
+    else:
+        rep.check(enc_fmt_time == "%H:%M", "R11.3", "same minute format", wheree, f"encoder parses the clock with {enc_fmt_time!r}, decoder prints '%H:%M'", key="R11.3|format")
     # ---------------- invalid strings
     clock_split_rule(prog, rep)
     inv = [o for o in outs if o.kind == "raise" and o.exc_name == "ValueError" and any(isinstance(g, tuple) and g[0] == "invalid" and g[1] == "time.strptime" for g in o.state.pc)]
